@@ -257,4 +257,23 @@ def xlsStyles (formats : List (Nat × List Char)) (xfs : List Nat) : Res (List C
   | .panic m => .panic m
   | .outOfFuel => .outOfFuel
 
+/-! ## the style index of an xlsx cell (`src/xlsx/cells_reader.rs`, `read_v`) -/
+
+/-- `atoi_simd::parse::<usize>(text)` on a 64-bit target: a non-empty run of ASCII digits (no sign, no blanks) whose
+    value fits 64 bits; anything else is an error. (Texts of more than 20 bytes are outside what the correspondence
+    run compares.) -/
+def parseUsize (t : List UInt8) : Option Nat :=
+  if t.isEmpty || !t.all (fun b => 48 ≤ b.toNat && b.toNat ≤ 57) then none
+  else
+    let v := t.foldl (fun acc b => acc * 10 + (b.toNat - 48)) 0
+    if v < 18446744073709551616 then some v else none
+
+/-- the format a `<c>` element's number is wrapped with: no `s` attribute → `Some(&CellFormat::Other)`; an `s` that
+    parses → `formats.get(id)` (`none` when the index is past the table: the number stays plain); an `s` that does
+    not parse → `unwrap_or(0)`, i.e. the format of XF 0 -/
+def xlsxCellFormat (formats : List CellFormat) (s : Option (List UInt8)) : Option CellFormat :=
+  match s with
+  | none => some .other
+  | some t => formats[(parseUsize t).getD 0]?
+
 end Formats
